@@ -333,6 +333,14 @@ def apply_spec(sp, op):
             if op.get("keep"):
                 sp.setdefault("_kept_pm", []).extend(ps["models"])
             ps["models"] = []
+        elif k == "p.models.permute":
+            if ps["models"]:
+                idx = []
+                for j in op["order"]:
+                    j = j % len(ps["models"])
+                    if j not in idx:
+                        idx.append(j)
+                ps["models"] = [ps["models"][j] for j in idx]
         elif k == "p.models.readd":
             kept = sp.get("_kept_pm", [])
             if kept and len(ps["models"]) < 4:
@@ -405,6 +413,14 @@ def apply_spec(sp, op):
         if op.get("keep"):
             sp.setdefault("_kept_bm", []).extend(bs["models"])
         bs["models"] = []
+    elif k == "b.models.permute":
+        if bs["models"]:
+            idx = []
+            for j in op["order"]:
+                j = j % len(bs["models"])
+                if j not in idx:
+                    idx.append(j)
+            bs["models"] = [bs["models"][j] for j in idx]
     elif k == "b.models.readd":
         kept = sp.get("_kept_bm", [])
         if kept and len(bs["models"]) < 4:
@@ -744,12 +760,12 @@ class SceneMachine(Machine):
 
     def _kinds(self, spec):
         k = ["p.bfield", "p.electron", "p.comp.add", "p.comp.set", "p.comp.set.bad", "p.comp.clear", "p.geometry", "p.geomtransform", "p.integrator",
-             "p.models.set", "p.models.add", "p.models.clear", "p.models.readd", "p.models.set.bad", "p.reassign", "p.caller.mutate", "p.unset",
+             "p.models.set", "p.models.add", "p.models.clear", "p.models.readd", "p.models.set.bad", "p.models.permute", "p.reassign", "p.caller.mutate", "p.unset",
              "p.atomic_data", "p.transform", "p.parent",
              "frame.transform", "p.recreate"]
         if spec["beams"]:
             k += ["b.set", "b.set", "b.element", "b.atomic_data", "b.plasma", "b.attenuator", "b.att.reassign", "b.att.step", "b.att.clamp_sigma",
-                  "b.models.set", "b.models.add", "b.models.clear", "b.models.readd", "b.models.set.bad", "b.reassign", "b.model.line", "b.integrator", "b.transform", "b.parent",
+                  "b.models.set", "b.models.add", "b.models.clear", "b.models.readd", "b.models.set.bad", "b.models.permute", "b.reassign", "b.model.line", "b.integrator", "b.transform", "b.parent",
                   "b.recreate", "b.reject"]
         if spec.get("laser"):
             k += ["l.profile.set", "l.profile.set", "l.profile.polarize", "l.profile", "l.spectrum", "l.spectrum.set", "l.plasma",
@@ -802,6 +818,8 @@ class SceneMachine(Machine):
             op["model"] = gen_plasma_model(rng, comp)
         elif kind == "p.models.readd":
             op["which"] = rng.randrange(8)
+        elif kind == "p.models.permute":
+            op["order"] = [rng.randrange(4) for _ in range(rng.randint(1, 4))]
         elif kind == "p.models.set.bad":
             op["models"] = [gen_plasma_model(rng, comp) for _ in range(rng.randint(1, 3))]
             op["junk_at"] = rng.randrange(4)
@@ -839,6 +857,8 @@ class SceneMachine(Machine):
             elif kind == "l.spectrum":
                 op["spectrum"] = gen_laser_spectrum(rng)
             elif kind == "l.spectrum.set":
+                if not ls["spectrum"]:
+                    return None
                 a = rng.choice([x for x in ls["spectrum"]["spec"]])
                 fresh = gen_laser_spectrum(rng)
                 while a not in fresh["spec"]:
@@ -890,6 +910,8 @@ class SceneMachine(Machine):
                 op["model"] = gen_beam_model(rng, bcomp, bs["element"])
             elif kind == "b.models.readd":
                 op["which"] = rng.randrange(8)
+            elif kind == "b.models.permute":
+                op["order"] = [rng.randrange(4) for _ in range(rng.randint(1, 4))]
             elif kind == "b.models.set.bad":
                 op["models"] = [gen_beam_model(rng, bcomp, bs["element"]) for _ in range(rng.randint(1, 3))]
                 op["junk_at"] = rng.randrange(4)
@@ -1146,7 +1168,7 @@ class SceneMachine(Machine):
             i = op["i"] % len(s.plasmas)
             p, ps = s.plasmas[i], sp["plasmas"][i]
             incomplete = ps["geometry"] is None or ps["provider"] is None or k == "p.unset"
-            if incomplete and k in ("p.models.set", "p.models.add", "p.models.readd", "p.integrator", "p.geometry", "p.geomtransform",
+            if incomplete and k in ("p.models.set", "p.models.add", "p.models.readd", "p.models.permute", "p.integrator", "p.geometry", "p.geomtransform",
                                     "p.atomic_data", "p.unset", "p.caller.mutate", "p.reassign", "p.recreate"):
                 try:
                     return self._mutate_plasma(c, op, env, s, sp, i, p, ps, k)
@@ -1261,6 +1283,17 @@ class SceneMachine(Machine):
                     del lst[0]
                 env.probe("caller_container_mutated")
                 return "raised"
+            elif k == "p.models.permute":
+                cur = list(p.models)
+                if not cur:
+                    return "noop"
+                idx = []
+                for j in op["order"]:
+                    j = j % len(cur)
+                    if j not in idx:
+                        idx.append(j)
+                p.models = [cur[j] for j in idx]          # the same instances, re-ordered and possibly fewer
+                env.probe("same_model_instances_reset")
             elif k == "p.models.readd":
                 if not c.kept_pm or len(ps["models"]) >= 4:
                     return "noop"
@@ -1368,6 +1401,17 @@ class SceneMachine(Machine):
             setattr(b, w, getattr(b, w))
             env.probe("same_object_reassigned")
             return "raised"
+        elif k == "b.models.permute":
+            cur = list(b.models)
+            if not cur:
+                return "noop"
+            idx = []
+            for j in op["order"]:
+                j = j % len(cur)
+                if j not in idx:
+                    idx.append(j)
+            b.models = [cur[j] for j in idx]
+            env.probe("same_model_instances_reset")
         elif k == "b.models.readd":
             if not c.kept_bm or len(bs["models"]) >= 4:
                 return "noop"
